@@ -22,6 +22,9 @@ Trace == ndJsonDeserialize(IOEnv.TRACE_FILE)
 
 VARIABLES l, bad, stats
 vars == <<l, bad, stats>>
+\* The monitor is a deterministic chain, one state per consumed event: fingerprinting the position alone (cfg: VIEW TraceView)
+\* keeps validation linear however large `bad`, the references or the block grow.
+TraceView == l
 
 Matches(o, x) == o.t = x.t /\ o.v = x.v /\ o.r \in x.rs /\ (o.t \in {"MaxAgeOutOfBoundsError", "PreflightSuccessStatusOutOfBoundsError"} => o.x \in x.rs)
 ObsOf(err) == [t |-> err.t, v |-> err.v, r |-> IF err.t \in {"MaxAgeOutOfBoundsError", "PreflightSuccessStatusOutOfBoundsError"} THEN err.x ELSE err.r, x |-> err.x]
